@@ -124,11 +124,59 @@ def check_table(ctx, conn, table, columns, exp_rows, case, li):
                 return
 
 
-def check_ledger(ctx, entries, errors, options, case, li):
-    from beancount.core import data
-    from beancount.core.compare import hash_entry
+READS = [
+    'SELECT open_date(parent(account)) AS a, close_date(root(account, 1)) AS b, open_meta(leaf(account), "note") AS c, open_meta(parent(account)) AS d',
+    'SELECT open_date(account) AS a, close_date(account) AS b WHERE open_date(root(account, 2)) IS NULL',
+    'SELECT currency_meta(account, "name") AS a, commodity_meta(leaf(account)) AS b, currency_meta("NOPE") AS c, getprice("NOPE", "USD") AS d, getprice(currency, "NOPE") AS e',
+    'SELECT account, convert(position, "NOPE") AS a, value(position) AS b, convert(position, "USD", 2020-06-01) AS c',
+    'SELECT account, sum(position) AS s, last(balance) AS b GROUP BY account ORDER BY account',
+    'SELECT date, account, position, balance WHERE account ~ "Assets"',
+    'SELECT account, open_date("Equity:Nope") AS a, open_meta("Equity:Nope", "k") AS b, close_date("Income") AS c FROM #accounts',
+    'SELECT name, currency_meta(name, "nope") AS a, open_date(name) AS b FROM #commodities',
+    'SELECT account, open_date(account) AS a, close_date(leaf(account)) AS b FROM #notes',
+    'SELECT currency, getprice(currency, "USD", date) AS a, currency_meta(amount.currency, "name") AS b FROM #prices',
+    'SELECT DISTINCT root(account, 1) AS r, open_date(root(account, 1)) AS o ORDER BY r',
+    'SELECT account, sum(position) AS s FROM OPEN ON 2020-01-01 CLOSE ON 2021-01-01 CLEAR GROUP BY account',
+    'SELECT date, narration FROM #transactions WHERE "trip" IN tags',
+    'SELECT type, count(*) AS n FROM #entries GROUP BY type',
+    'SELECT meta("nope") AS a, entry_meta("nope") AS b, any_meta("nope") AS c, meta["filename"] AS d FROM #postings',
+    'BALANCES', 'BALANCES AT cost FROM year = 2020', 'JOURNAL "Assets"', 'JOURNAL "Nope" AT units',
+    'SELECT * FROM #accounts', 'SELECT * FROM #commodities', 'SELECT * FROM #prices', 'SELECT * FROM #balances',
+]
+
+
+def read_workload(ctx, conn, rng, case):
+    """Statements that only read: look-ups of accounts, currencies, metadata keys and prices that do not exist, reports,
+    period views, aggregations. None of them may change what any table presents afterwards."""
+    beanquery = engine.bq()
+    for text in rng.sample(READS, rng.randint(3, 8)):
+        try:
+            cur = conn.execute(text)
+            cur.fetchall()
+            ctx.count('obs.read_statements')
+        except beanquery.Error as exc:
+            ctx.count('obs.read_statements_rejected')
+            ctx.seen('read_statements_rejected', f'{text[:60]}: {str(exc)[:80]}')
+        except Exception as exc:  # noqa: BLE001
+            ctx.violation('c11.read_statement_raised', f'{text}: {type(exc).__name__}: {exc}', case)
+
+
+def check_ledger(ctx, entries, errors, options, case, li, rng=None):
     beanquery = engine.bq()
     conn = beanquery.connect('beancount:', entries=entries, errors=errors, options=options)
+    check_tables(ctx, conn, entries, case, li)
+    if rng is not None:
+        # history: the same connection after a series of reading statements presents the same tables
+        before = ctx.counters['violations_raw']
+        read_workload(ctx, conn, rng, case)
+        if ctx.counters['violations_raw'] == before:
+            check_tables(ctx, conn, entries, dict(case, phase='re-read on the same connection after a series of reading statements'), (li, 'after'))
+            ctx.count('obs.ledgers_reread_after_reads')
+
+
+def check_tables(ctx, conn, entries, case, li):
+    from beancount.core import data
+    from beancount.core.compare import hash_entry
     # ---- postings
     exp = expected_postings(entries)
     cols = list(exp[0][0].keys()) if exp else ['account']
@@ -241,7 +289,7 @@ def run_case(ctx, n):
         entries = constructed_entries(rng, entries)
         case['constructed'] = True
         ctx.count('obs.constructed_ledgers')
-    check_ledger(ctx, entries, errors, options, case, n)
+    check_ledger(ctx, entries, errors, options, case, n, rng=rng)
     ctx.count('obs.ledgers')
     if len(ctx.samples) < 2:
         ctx.sample({'ledger_head': led.text[:600], 'directives': len(entries)})
@@ -266,6 +314,8 @@ def finalize(merged):
     for t in ('postings', 'entries', 'transactions', 'prices', 'balances', 'notes', 'events', 'documents', 'accounts', 'commodities'):
         if c.get(f'obs.rows.{t}', 0) == 0:
             reasons.append(f'no row of table {t} compared')
+    if c.get('obs.ledgers_reread_after_reads', 0) == 0 or c.get('obs.read_statements', 0) == 0:
+        reasons.append('no ledger was re-read after a series of reading statements')
     nonnull = merged['sets'].get('columns_nonnull', set())
     if len(nonnull) < 60:
         reasons.append(f'only {len(nonnull)} table columns seen with a non-NULL value')
